@@ -17,6 +17,7 @@ fancy indexing, more than one axis."""
 import numpy as np
 
 from . import terms as T
+from .sarray import FakeDtype
 from .scalars import SB, SV, EngineGap, lift
 
 
@@ -107,7 +108,7 @@ class LArr(np.ndarray):
     shape = property(lambda self: (self._len,))
     ndim = property(lambda self: 1)
     size = property(lambda self: self._len)
-    dtype = property(lambda self: self._dt)
+    dtype = property(lambda self: FakeDtype(self._dt))
     flags = property(lambda self: _Flags())
 
     def __len__(self):
@@ -154,18 +155,40 @@ class LArr(np.ndarray):
             key = key[0]
         if key is Ellipsis:
             return slice(None)
+        if isinstance(key, (int, np.integer)) or (isinstance(key, SV) and key.is_integer()):
+            return key
         if not isinstance(key, slice):
-            raise EngineGap('non-slice index %r on a symbolic-length array' % (key,))
+            raise EngineGap('index %r on a symbolic-length array' % (key,))
         return key
 
+    def _int_index(self, i):
+        """Position of integer index ``i`` (negative = from the end); IndexError outside the array as in NumPy."""
+        n = self._len
+        if i < 0:
+            i = i + n
+        if not bool(both(i >= 0, i < n)):
+            raise IndexError('index out of bounds for axis 0 with size %r' % (n,))
+        return i
+
     def __getitem__(self, key):
-        s, st, cnt = slice_indices(self._key(key), self._len)
+        key = self._key(key)
+        if not isinstance(key, slice):
+            return self.at(self._int_index(key))
+        s, st, cnt = slice_indices(key, self._len)
         root = self if self._base is None else self._base
         return LArr(cnt, None, base=root, start=self._start + self._step * s if self._base is not None else s,
                     step=self._step * st if self._base is not None else st, dtype=self._dt)
 
     def __setitem__(self, key, value):
-        s, st, cnt = slice_indices(self._key(key), self._len)
+        key = self._key(key)
+        if not isinstance(key, slice):
+            if isinstance(value, LArr):
+                if not bool(value._len == 1):
+                    raise ValueError('setting an array element with a sequence')
+                value = value.at(0)
+            i = self._int_index(key)
+            key = slice(i, i + 1)
+        s, st, cnt = slice_indices(key, self._len)
         if isinstance(value, LArr):
             vlen = value._len
             if self._same_view(value, s, st, cnt):
@@ -259,6 +282,9 @@ class LArr(np.ndarray):
     def __imul__(self, o):
         return self._inplace(o, lambda a, b: a * b)
 
+    def __itruediv__(self, o):
+        return self._inplace(o, lambda a, b: a / b)
+
 
 class LProxy(object):
     """Layer over a module's ``np`` that understands ``LArr`` (everything else is delegated)."""
@@ -307,6 +333,44 @@ class LProxy(object):
                 m = 0
             return LArr(m, lambda i: lo + i, dtype=k.get('dtype') or 'int64')
         return self._inner.arange(*a, **k)
+
+    def empty_like(self, a, dtype=None, order='K', subok=True, shape=None):
+        if isinstance(a, LArr):
+            return self.empty((a._len,), dtype=dtype or a._dt)
+        return self._inner.empty_like(a, dtype=dtype, order=order, subok=subok, shape=shape)
+
+    def swapaxes(self, a, axis1, axis2):
+        if isinstance(a, LArr):
+            if axis1 not in (0, -1) or axis2 not in (0, -1):
+                raise EngineGap('swapaxes on a 1-d symbolic-length array')
+            return a
+        return self._inner.swapaxes(a, axis1, axis2)
+
+    def _binop(self, name, op, a, b, out=None, **k):
+        if isinstance(a, LArr) or isinstance(b, LArr) or isinstance(out, LArr):
+            if k:
+                raise EngineGap('np.%s keyword %s on symbolic-length arrays' % (name, sorted(k)))
+            la = a if isinstance(a, LArr) else None
+            res = la._binary(b, op) if la is not None else b._binary(a, lambda x, y: op(y, x))
+            if out is None:
+                return res
+            if not isinstance(out, LArr):
+                raise EngineGap('concrete out for symbolic-length operands')
+            if not bool(res._len == out._len):
+                raise ValueError('operands could not be broadcast together with shapes (%r,) (%r,)'
+                                 % (res._len, out._len))
+            out[slice(None)] = res
+            return out
+        return getattr(self._inner, name)(a, b, out=out, **k) if out is not None else getattr(self._inner, name)(a, b, **k)
+
+    def subtract(self, a, b, out=None, **k):
+        return self._binop('subtract', lambda x, y: x - y, a, b, out, **k)
+
+    def add(self, a, b, out=None, **k):
+        return self._binop('add', lambda x, y: x + y, a, b, out, **k)
+
+    def multiply(self, a, b, out=None, **k):
+        return self._binop('multiply', lambda x, y: x * y, a, b, out, **k)
 
     def sum(self, a, *args, **k):
         if isinstance(a, LArr):
